@@ -444,13 +444,19 @@ def compare_and_round(ns, ctx, rnd, v1, v2, c1, c2):
 
 
 def plan(tier, seed):
-    return [{'n': N[tier]} for _ in range(SHARDS[tier])]
+    specs = [{'n': N[tier]} for _ in range(SHARDS[tier])]
+    if tier == 'thorough':
+        specs.append({'n': 0, 'ambient': True})
+    return specs
 
 
 def run_shard(spec, ctx):
     ns = core.load_repo()
     mon = OpMonitors(ns, ctx).install()
     rnd = random.Random('%s-%s-%s' % (ID, spec['seed'], spec['shard']))
+    if spec.get('ambient'):
+        core.run_repo_tests(ns, ['geodepy/tests/test_angles.py', 'geodepy/tests/test_convert.py', 'geodepy/tests/test_coord.py'], ctx)
+        ctx.bucket('ambient', 'repo-tests')
     for i in range(spec['n']):
         for _ in range(50):
             tree = gen_tree(rnd, rnd.randint(1, 6))
